@@ -1283,7 +1283,13 @@ def run_scale(case):
                 break
         if violations:
             break
-    if not use_cc and not violations:
+    # C(tau) itself carries units: for s < 1 its magnitude (~ s^2) drops
+    # below scipy's default epsabs that the library requests for the
+    # [cutoff, inf) piece, whose error estimate is then not a bound (same
+    # root as inf-tail-quad-glitch) - compared only where the requested
+    # absolute tolerance is negligible or the range is finite
+    if not use_cc and not violations and (s_fac >= 1.0 or ctype == "hard"):
+        monitors["scale_corr_compared"] = 2
         for tau in (0.3 / wc, 1.7 / wc):
             a = base.correlation(tau) * s_fac ** 2
             b = scaled.correlation(tau / s_fac)
